@@ -800,8 +800,9 @@ def main():
     import translate_strides
     import translate_missing
     import translate_driver
+    import translate_diff
     failed = {}
-    ERR = (Unsupported, translate_pyx.Unsupported, translate_walk.Unsupported, translate_eq.Unsupported, translate_indx.Unsupported, translate_strides.Unsupported, translate_missing.Unsupported, translate_driver.Unsupported,
+    ERR = (Unsupported, translate_pyx.Unsupported, translate_walk.Unsupported, translate_eq.Unsupported, translate_indx.Unsupported, translate_strides.Unsupported, translate_missing.Unsupported, translate_driver.Unsupported, translate_diff.Unsupported,
            StopIteration, SyntaxError, KeyError, IndexError, AttributeError)
 
     def piece(name, path, gen, stub_import=None):
@@ -828,6 +829,7 @@ def main():
     piece("missing_rule", "MissingGen.lean",
           lambda: translate_missing.generate([("ffuncs", rd("ffuncs.py")), ("xfuncs", rd("xfuncs.py"))]), "CatiiModel.Prelude")
     piece("driver", "DriverGen.lean", lambda: translate_driver.generate(rd("ccubes.py"), rd("xcubes.py")), "CatiiModel.Sched")
+    piece("marginal_diff", "DiffGen.lean", lambda: translate_diff.generate(rd("ccubes.py")), "CatiiModel.Cube")
     return 3 if failed else 0
 
 
